@@ -115,6 +115,13 @@ func main() {
 		for _, d := range coveringDesigns(*prop) {
 			add(d, "covering")
 		}
+		add(soleCoveringDesign(), "covering")
+		add(soleRandomDesign(rng.Fork(), 0), "covering")
+		if *tier == "thorough" {
+			for i := 1; i < 8; i++ {
+				add(soleRandomDesign(rng.Fork(), i), "covering")
+			}
+		}
 		for _, d := range witnessDesigns() {
 			add(d, "witness")
 		}
@@ -209,6 +216,9 @@ func main() {
 	// ---- direct oracles
 	distinct := vh.Distinct{}
 	var c04cases, c14cases []string
+	if *prop == "C14" {
+		c14cases = schemaCases(res, items) // also finds the operations documented by a shared schema
+	}
 	kin := newKinCache()
 	for i := range steps {
 		si := infos[i]
@@ -249,9 +259,6 @@ func main() {
 		} else {
 			checkC14(res, kin, it, si, ob, in)
 		}
-	}
-	if *prop == "C14" {
-		c14cases = schemaCases(res, items)
 	}
 	res.Distinct = len(distinct)
 	// distribution of expected outcomes
@@ -410,8 +417,16 @@ func genMethodSteps(d *dg.Design, it *built, s *dg.Service, m *dg.Method, rng *v
 		push(st, si)
 	}
 	var pv, rv *dg.Val
+	sole := hasFeature(d, "sole_validation")
+	if sole {
+		perMethod = 0 // every site of these small types is exercised, no sampling
+	}
 	if m.Payload != nil {
-		pv = d.GenVal(rng, m.Payload, vo)
+		if it.stream == "covering" {
+			pv = genFull(d, rng, m.Payload, 0) // every attribute set at every depth
+		} else {
+			pv = d.GenVal(rng, m.Payload, vo)
+		}
 	}
 	if m.Result != nil {
 		rv = d.GenVal(rng, m.Result, vo)
@@ -611,6 +626,12 @@ func genWitnessSteps(d *dg.Design, m *dg.Method, pv, rv *dg.Val, mk func(desc, s
 		if prop == "C14" {
 			mkRawH("witness:header-array-comma-separated", ".h_arr", obj("h_arr", &dg.Val{K: "array", Elems: []*dg.Val{iv(1), iv(2)}}), false, "GET", "/wit/harr", map[string][]string{"X-H-Arr": {"1,2"}}, "")
 		}
+	case "w_sh1", "w_sh2":
+		one := func(i int64) *dg.Val {
+			return obj("shm", &dg.Val{K: "map", Keys: []*dg.Val{sv("k")}, Elems: []*dg.Val{{K: "int", I: i}}})
+		}
+		mk("valid", "", "request", one(3), rv)
+		mk("witness:shared-schema:value0", ".shm{val0}", "request", one(0), rv)
 	case "w_u64":
 		mk("witness:uint64-above-int64", ".u64", "request", obj("u64", &dg.Val{K: "uint", U: 18446744073709551615}), rv)
 	case "w_qmap":
